@@ -837,6 +837,31 @@ def rule_r8(prog, res):
                                                    not pol)
                 for t, pol in atoms):
             plain.append(r)
+    # the descriptors' functions are compared themselves, not through a
+    # coarser key (code object, name, repr)
+    for r in plain:
+        for e, pol in flatten_guards(guards_at(r, stop=br)):
+            for cmp_ in ast.walk(e):
+                if not (isinstance(cmp_, ast.Compare) and isinstance(
+                        cmp_.ops[0], (ast.Is, ast.IsNot, ast.Eq, ast.NotEq))):
+                    continue
+                sides = [cmp_.left] + cmp_.comparators
+                if not any('function' in unparse(x) for x in sides):
+                    continue
+                coarse = [unparse(x) for x in sides
+                          if not isinstance(x, (ast.Name, ast.Attribute))]
+                where_ = '%s:%d' % (f.module.relpath, cmp_.lineno)
+                res.ob('R8', where_, 'process_method compares %s' % unparse(
+                    cmp_), 'VIOLATED' if coarse else 'ok')
+                if coarse:
+                    res.finding('R8', 'Interface.process_method|coarse-'
+                                'function-identity', where_, 'the test that '
+                                'tells a repeated registration from a second '
+                                'function compares %s: two functions made by '
+                                'one def (a service factory) share it, so the '
+                                'second one is dropped silently and the '
+                                'service listed first answers the name' %
+                                coarse[0])
     ok = bool(plain)
     where = '%s:%d' % (f.module.relpath, br.lineno)
     res.ob('R8', where, 'process_method: the already-registered branch has '
@@ -973,6 +998,42 @@ def rule_r10(prog, res):
                 atoms = guardspec.atoms_at(r, lp)
                 if any('.endpoint' in t for t, _ in atoms):
                     rejects.append(r)
+    # a registry the rejection reads must be filled by the same loop
+    dicts = {t.id for a in walk_no_defs(f.node) if isinstance(a, ast.Assign)
+             and (isinstance(a.value, ast.Dict) or isinstance(
+                 a.value, ast.Call) and call_name(a.value) == 'dict')
+             for t in a.targets if isinstance(t, ast.Name)}
+    for lp in loops:
+        for d_ in sorted(dicts):
+            reads = [c for c in ast.walk(lp) if isinstance(c, ast.Call) and
+                     isinstance(c.func, ast.Attribute) and unparse(
+                         c.func.value) == d_ and c.func.attr == 'get'] + [
+                x for x in ast.walk(lp) if isinstance(x, ast.Subscript) and
+                unparse(x.value) == d_ and isinstance(x.ctx, ast.Load)] + [
+                x for x in ast.walk(lp) if isinstance(x, ast.Compare) and
+                isinstance(x.ops[0], (ast.In, ast.NotIn)) and
+                unparse(x.comparators[0]) == d_]
+            writes = [c for c in ast.walk(lp) if isinstance(c, ast.Call) and
+                      isinstance(c.func, ast.Attribute) and unparse(
+                          c.func.value) == d_ and c.func.attr in (
+                              'setdefault', 'update')] + [
+                x for x in ast.walk(lp) if isinstance(x, ast.Subscript) and
+                unparse(x.value) == d_ and isinstance(x.ctx, ast.Store)]
+            if not reads and not writes:
+                continue
+            okw = bool(writes)
+            where_ = '%s:%d' % (f.module.relpath, lp.lineno)
+            res.ob('R10', where_, 'HttpBase.__init__: registry %s is read %d '
+                   'and written %d times in the collecting loop' % (
+                       d_, len(reads), len(writes)),
+                   'ok' if okw else 'VIOLATED')
+            if not okw:
+                res.finding('R10', 'HttpBase.__init__|registry-never-filled|'
+                            '%s' % d_, where_, 'the loop looks patterns up in '
+                            '%s but never stores one: the registry stays '
+                            'empty, the "answer to the same requests" '
+                            'rejection cannot fire and the service order '
+                            'decides which function serves the URL' % d_)
     where = '%s:%d' % (f.module.relpath, loops[0].lineno)
     res.ob('R10', where, 'HttpBase.__init__: %d rejections of a second '
            'endpoint for one pattern' % len(rejects),
@@ -1034,6 +1095,19 @@ _W = 'spyne/server/wsgi.py'
 _X = 'spyne/protocol/xml.py'
 
 MUTANTS = [
+    Mutant('duplicate-by-code-object', 'R8', 'fire', _I,
+           in_func('Interface.process_method',
+                   "if om is not method and om.function is not "
+                   "method.function:",
+                   "if om is not method and six.get_function_code("
+                   "om.function) is not six.get_function_code("
+                   "method.function):"), 'coarse-function-identity'),
+    Mutant('claimed-patterns-never-stored', 'R10', 'fire', _H,
+           in_func('HttpBase.__init__',
+                   "other = claimed.setdefault((patt.verb, patt.host, "
+                   "address), patt)",
+                   "other = claimed.get((patt.verb, patt.host, address), "
+                   "patt)"), 'registry-never-filled'),
     Mutant('patterns-collected-in-a-set', 'R10', 'fire', _H,
            in_func('HttpBase.__init__',
                    "        self._http_patterns = []\n",
